@@ -90,6 +90,12 @@ class Finders:
         if getattr(line, method)(dict_or_line, ["record_type","name"])]
 
   def _search_duplicate(self, gfa_line):
+    if gfa_line.record_type in self.RECORDS_WITH_NAME and \
+        isinstance(gfa_line.name, (list, dict)):
+      # (e.g. an ID tag of array or JSON type, in a line parsed at vlevel 0)
+      raise gfapy.TypeError(
+        "The identifier of the line is not a string: {}\n".format(
+          repr(gfa_line.name))+"Line: {}".format(gfa_line))
     if gfa_line.record_type == "L":
       found = self._search_link(gfa_line.oriented_from, gfa_line.oriented_to,
                                 gfa_line.alignment)
